@@ -111,8 +111,10 @@ Record cfg := mkCfg {
   set_requalifies : bool;         (* assigned values: table == CTE name -> physical name *)
   set_unqualified_raises : bool;  (* the else branch (ValueError) also catches unqualified references *)
   set_strips_alias : bool;        (* top-level alias of an assigned value removed *)
-  target_is_phys : bool;          (* Update/Delete(this = ctes[0].this.args["from"].this) *)
-  stmt_has_where : bool;          (* where=exp.Where(this=condition) handed to exp.Update / exp.Delete *)
+  target_is_phys_update : bool;   (* exp.Update(this = ctes[0].this.args["from"].this) *)
+  target_is_phys_delete : bool;   (* exp.Delete(this = ctes[0].this.args["from"].this) *)
+  update_has_where : bool;        (* where=exp.Where(this=condition) handed to exp.Update *)
+  delete_has_where : bool;        (* where=exp.Where(this=condition) handed to exp.Delete *)
   ensure_cte_update : bool;       (* @ensure_cte() on update *)
   ensure_cte_delete : bool;       (* @ensure_cte() on delete *)
   build_session_calls : nat;      (* session._collect/_execute/... calls while BUILDING the lazy expression *)
@@ -125,7 +127,8 @@ Definition binop_is_and (o : binop) : bool := match o with And => true | _ => fa
     (where_str_is_sql, set_unqualified_raises, set_strips_alias) are deliberately not constrained *)
 Definition cfg_ok (c : cfg) : bool :=
   none_is_true c && binop_is_and (list_op c) && where_requalifies c && where_strips_alias c
-  && set_requalifies c && target_is_phys c && stmt_has_where c && ensure_cte_update c && ensure_cte_delete c
+  && set_requalifies c && target_is_phys_update c && target_is_phys_delete c && update_has_where c
+  && delete_has_where c && ensure_cte_update c && ensure_cte_delete c
   && Nat.eqb (build_session_calls c) 0 && Nat.eqb (execute_session_calls c) 1.
 
 (** * Calls *)
@@ -221,8 +224,8 @@ Fixpoint compile_set_from (c : cfg) (st : tstate) (set : list (qexpr * qexpr)) (
   end.
 Definition compile_set c st set := compile_set_from c st set [].
 
-Definition target (c : cfg) (st : tstate) : string := if target_is_phys c then phys st else cte st.
-Definition wrap_where (c : cfg) (p : qexpr) : option qexpr := if stmt_has_where c then Some p else None.
+Definition target (is_phys : bool) (st : tstate) : string := if is_phys then phys st else cte st.
+Definition wrap_where (has_where : bool) (p : qexpr) : option qexpr := if has_where then Some p else None.
 
 Definition compile (c : cfg) (st : tstate) (k : call) : err + stmt :=
   match k with
@@ -232,14 +235,14 @@ Definition compile (c : cfg) (st : tstate) (k : call) : err + stmt :=
            | inl e => inl e
            | inr p => match compile_set c st set with
                       | inl e => inl e
-                      | inr us => inr (SUpdate (target c st) us (wrap_where c p))
+                      | inr us => inr (SUpdate (target (target_is_phys_update c) st) us (wrap_where (update_has_where c) p))
                       end
            end
   | CDelete w =>
       if negb (ensure_cte_delete c) then inl EIndex
       else match compile_where c st w with
            | inl e => inl e
-           | inr p => inr (SDelete (target c st) (wrap_where c p))
+           | inr p => inr (SDelete (target (target_is_phys_delete c) st) (wrap_where (delete_has_where c) p))
            end
   end.
 
@@ -328,8 +331,8 @@ Definition spec_count (cs : list string) (k : call) (rows : list row) : nat :=
 (** * Domains *)
 Definition omem (q : option string) (l : list (option string)) : bool := existsb (oeqb q) l.
 
-(** the full property's domain: references name existing columns and are written as table['c'],
-    col('c') (or qualified by the table's own names); aliases only where the API puts them (top level) *)
+(** the full property's domain: references name existing columns and are written as table['c'] or
+    col('c'); aliases only where the API puts them (top level of a function-built Column) *)
 Definition user_quals (st : tstate) : list (option string) := [None; Some (branch st)].
 (** qualifiers that also reach the physical table (accepted in predicates, not named by the property) *)
 Definition self_quals (st : tstate) : list (option string) :=
